@@ -261,7 +261,12 @@ func calculateBackoff(endpoint *domain.Endpoint, success bool) (time.Duration, i
 	// For first failure (BackoffMultiplier is 1), keep normal interval
 	// Only apply backoff on subsequent failures
 	if endpoint.BackoffMultiplier <= 1 {
-		// First failure - use normal interval but set multiplier to 2 for next time
+		// First failure - use normal interval but set multiplier to 2 for next time.
+		// The backoff cap holds here as well: with a check interval above the cap the first
+		// failed check would otherwise wait longer than every later one.
+		if endpoint.CheckInterval > MaxBackoffSeconds {
+			return MaxBackoffSeconds, 2
+		}
 		return endpoint.CheckInterval, 2
 	}
 
